@@ -123,6 +123,14 @@ class H(Hooks):
         else:
             ctx.check(all(x in ready for x in got) and len(set(got)) == len(got), "filter_returns_sublist",
                       lambda: f"available_operations() = {got} not a sub-list of ready {ready}", filter="available_operations")
+            # the criterion is not pinned down for this input (zero-duration shortcut), but available_operations() is by
+            # definition the installed filter applied to the raw ready list: compare with that direct application
+            flt = getattr(w.disp, "ready_operations_filter", None)
+            if flt is not None and w.filter_names is not None:
+                direct = [w.jp(o) for o in flt(w.disp, list(w.disp.raw_ready_operations()))]
+                ctx.check(got == direct, "available_is_filtered_ready",
+                          lambda: f"available_operations() = {got}, installed filter applied to raw_ready_operations() = {direct}")
+                ctx.probe("available_vs_direct_filter_zero_duration")
 
 
 def execute(case, ctx):
